@@ -720,6 +720,62 @@ theorem reported_failed_on_restart_is_listed (m : Mon) (s : Nat) (h : s ∈ onch
 
 example : onchainFailed prevCpConfirmed = [2] ∧ 2 ∈ allCurrentOutbound prevCpConfirmed := by decide
 
+/-! #### Composition with `ChannelManager::read` (translated gates `channelClosed`, `readInserts`, `readResolves`; reduced entry
+     semantics `outcomeOf`, see `partial`): a payment whose parts sit on SEVERAL channels, some closed on chain, some open. -/
+
+/-- After a restart the payment is in exactly one of {PaymentSent, PaymentFailed, still pending} (`restartOutcome` is a
+    function), and it is PaymentFailed ONLY IF every part it holds — persisted or re-inserted from a monitor — is reported
+    failed on chain by the monitor of a CLOSED channel, hence (reported_failed_on_restart_is_failed_on_chain) absent from,
+    dust in, or resolved without a preimage in that channel's irrevocably confirmed commitment transaction. -/
+theorem restart_payment_failed_only_if_every_part_failed_on_chain_partial (persisted : List Nat) (vs : List ChanView)
+    (h : restartOutcome persisted vs = .failed) :
+    ∀ s ∈ persisted ++ vs.flatMap readInsertsOf, ∃ v ∈ vs, v.inMap = false ∧ s ∈ onchainFailed v.mon ∧
+      ∃ t, confirmedTxid v.mon = some t ∧
+        ((∀ x ∈ commitmentHtlcs v.mon t, x.src ≠ some s) ∨
+         ∃ x ∈ commitmentHtlcs v.mon t, x.src = some s ∧
+           (x.outIdx = none ∨ ∃ r ∈ v.mon.resolvedOnChain, r.outIdx = x.outIdx ∧ r.preimage = none)) := by
+  intro s hs
+  unfold restartOutcome outcomeOf at h
+  split at h
+  · cases h
+  · split at h
+    · rename_i hall
+      simp only [Bool.and_eq_true, List.all_eq_true] at hall
+      have hf := hall.2 s hs
+      simp only [List.contains_iff_mem, List.mem_flatMap] at hf
+      obtain ⟨v, hv, hsv⟩ := hf
+      unfold readFailsOf at hsv
+      split at hsv
+      · rename_i hc
+        have hin : v.inMap = false := by
+          cases hi : v.inMap <;> simp [OnchainFailedGen.readResolves, OnchainFailedGen.channelClosed, hi] at hc ⊢
+        obtain ⟨t, ht, _, _, hcases⟩ := reported_failed_on_restart_is_failed_on_chain v.mon s hsv
+        exact ⟨v, hv, hin, hsv, t, ht, hcases⟩
+      · cases hsv
+    · cases h
+
+/-- A part that no closed channel's monitor reports failed — because its channel is still open, or because it has a live
+    non-dust output in the confirmed commitment (live_output_never_reported_failed_on_restart) — blocks PaymentFailed. -/
+theorem part_in_flight_blocks_payment_failed_on_restart_partial (persisted : List Nat) (vs : List ChanView) (s : Nat)
+    (hs : s ∈ persisted ++ vs.flatMap readInsertsOf)
+    (hlive : ∀ v ∈ vs, v.inMap = false → s ∉ onchainFailed v.mon) : restartOutcome persisted vs ≠ .failed := by
+  intro h
+  obtain ⟨v, hv, hin, hf, _⟩ := restart_payment_failed_only_if_every_part_failed_on_chain_partial persisted vs h s hs
+  exact hlive v hv hin hf
+
+/-- two-part MPP payment, part 1 on a channel closed with the previous counterparty commitment (live output), part 2 on an OPEN
+    channel: pending; with part 1 dust instead: still pending (part 2 is in flight); with every channel closed and both parts
+    absent / dust: failed (last conjunct: the second channel closed too, part 2 not in its confirmed commitment); a preimage on the
+    closed channel: sent -/
+def mppOpen : ChanView := { inMap := true, mon := { prevCpConfirmed with cpCur := [⟨some 2, some 0⟩], cpPrev := [] }, preimages := [] }
+def mppClosedLive : ChanView := { inMap := false, mon := { prevCpConfirmed with cpCur := [⟨some 1, some 0⟩] }, preimages := [] }
+def mppClosedDust : ChanView :=
+  { inMap := false, mon := { prevCpConfirmed with cpCur := [⟨some 1, none⟩], cpPrev := [⟨some 1, none⟩] }, preimages := [] }
+example : restartOutcome [1, 2] [mppClosedLive, mppOpen] = .pending ∧ restartOutcome [1, 2] [mppClosedDust, mppOpen] = .pending ∧
+    restartOutcome [1] [mppClosedDust] = .failed ∧ restartOutcome [] [mppClosedDust] = .failed ∧
+    restartOutcome [1, 2] [{ mppClosedLive with preimages := [1] }, mppOpen] = .sent ∧
+    restartOutcome [1, 2] [mppClosedDust, { mppOpen with inMap := false }] = .failed := by decide
+
 end OnchainFailed
 
 end Ldk.C03
